@@ -5,11 +5,12 @@ use crate::gen::GameParams;
 use crate::props::*;
 use crate::runner::Leg;
 
-const MIX: GameParams = GameParams { max_ops: 120, w_setup: 1, w_pos: 6, w_small: 3 };
-const MIX_LONGSETUP: GameParams = GameParams { max_ops: 160, w_setup: 4, w_pos: 4, w_small: 2 };
-const SETUP_ONLY: GameParams = GameParams { max_ops: 40, w_setup: 1, w_pos: 0, w_small: 0 };
-const SMALL: GameParams = GameParams { max_ops: 240, w_setup: 0, w_pos: 1, w_small: 8 };
-const POS_ONLY: GameParams = GameParams { max_ops: 40, w_setup: 0, w_pos: 7, w_small: 3 };
+const MIX: GameParams = GameParams { max_ops: 120, w_setup: 1, w_pos: 6, w_small: 3, w_frozen: 0 };
+const MIX_LONGSETUP: GameParams = GameParams { max_ops: 160, w_setup: 4, w_pos: 4, w_small: 2, w_frozen: 0 };
+const SETUP_ONLY: GameParams = GameParams { max_ops: 40, w_setup: 1, w_pos: 0, w_small: 0, w_frozen: 0 };
+const SMALL: GameParams = GameParams { max_ops: 240, w_setup: 0, w_pos: 1, w_small: 8, w_frozen: 0 };
+const FROZEN: GameParams = GameParams { max_ops: 240, w_setup: 0, w_pos: 0, w_small: 1, w_frozen: 6 };
+const POS_ONLY: GameParams = GameParams { max_ops: 40, w_setup: 0, w_pos: 7, w_small: 3, w_frozen: 0 };
 
 const TREE: ExpandOpts = ExpandOpts { caps: [0, 10, 5], rate: 40, max_nodes: 6000 };
 const TREE_LIGHT: ExpandOpts = ExpandOpts { caps: [0, 6, 3], rate: 24, max_nodes: 2500 };
@@ -57,61 +58,62 @@ pub fn legs(id: &str) -> Vec<Leg> {
     };
     match id {
         "C01" => vec![
-            leg!("tree_from_positions", POS_ONLY, w(Profile::Fight, Some(TREE)), 30, 1500, 60, mk),
-            leg!("tree_along_games", MIX, w(Profile::Fight, Some(TREE_LIGHT)), 20, 1000, 300, mk),
+            leg!("tree_from_positions", POS_ONLY, w(Profile::Fight, Some(TREE)), 60, 1800, 60, mk),
+            leg!("tree_along_games", MIX, w(Profile::Fight, Some(TREE_LIGHT)), 40, 1200, 300, mk),
         ],
         "C02" => vec![
-            leg!("games_fight", MIX, w(Profile::Fight, Some(TREE_LIGHT)), 60, 3000, 600, mk),
-            leg!("games_normal", MIX, w(Profile::Normal, None), 120, 6000, 1500, mk),
+            leg!("games_fight", MIX, w(Profile::Fight, Some(TREE_LIGHT)), 480, 14400, 600, mk),
+            leg!("games_normal", MIX, w(Profile::Normal, None), 960, 28800, 1500, mk),
         ],
         "C03" => vec![
-            leg!("games_normal", MIX_LONGSETUP, w(Profile::Normal, None), 250, 10000, 1500, mk),
-            leg!("games_cycle", SMALL, w(Profile::Cycle, None), 150, 6000, 1500, mk),
+            leg!("games_normal", MIX_LONGSETUP, w(Profile::Normal, None), 10000, 300000, 1500, mk),
+            leg!("games_cycle", SMALL, w(Profile::Cycle, None), 6000, 180000, 1500, mk),
         ],
         "C04" => vec![
-            leg!("games_normal", MIX, w(Profile::Normal, None), 200, 8000, 1500, mk),
-            leg!("games_fight", SMALL, w(Profile::Fight, None), 200, 8000, 600, mk),
+            leg!("games_normal", MIX, w(Profile::Normal, None), 1600, 48000, 1500, mk),
+            leg!("games_fight", SMALL, w(Profile::Fight, None), 1600, 48000, 600, mk),
         ],
         "C05" | "C06" | "C07" => vec![
-            leg!("small_cycle", SMALL, w(Profile::Cycle, None), 250, 10000, 1500, mk),
-            leg!("games_normal", MIX, w(Profile::Normal, None), 120, 5000, 1500, mk),
-            leg!("small_fight", SMALL, w(Profile::Fight, None), 100, 4000, 1000, mk),
+            leg!("small_cycle", SMALL, w(Profile::Cycle, None), 5000, 150000, 1500, mk),
+            leg!("games_normal", MIX, w(Profile::Normal, None), 2400, 72000, 1500, mk),
+            leg!("small_fight", SMALL, w(Profile::Fight, None), 2000, 60000, 1000, mk),
+            leg!("near_immobile_cycle", FROZEN, w(Profile::Cycle, None), 5000, 150000, 1000, mk),
         ],
         "C08" => vec![
-            leg!("games_normal", MIX_LONGSETUP, w(Profile::Normal, None), 150, 6000, 1500, mk),
-            leg!("games_fight", MIX, w(Profile::Fight, None), 150, 6000, 1000, mk),
-            leg!("small_cycle", SMALL, w(Profile::Cycle, None), 100, 4000, 1000, mk),
+            leg!("games_normal", MIX_LONGSETUP, w(Profile::Normal, None), 3000, 90000, 1500, mk),
+            leg!("games_fight", MIX, w(Profile::Fight, None), 3000, 90000, 1000, mk),
+            leg!("small_cycle", SMALL, w(Profile::Cycle, None), 2000, 60000, 1000, mk),
         ],
-        "C09" => vec![leg!("setup_orders", SETUP_ONLY, w(Profile::Normal, None), 800, 40000, 40, mk)],
+        "C09" => vec![leg!("setup_orders", SETUP_ONLY, w(Profile::Normal, None), 32000, 960000, 40, mk)],
         "C10" => vec![
-            leg!("games_normal", MIX_LONGSETUP, w(Profile::Normal, None), 80, 3000, 1000, mk),
-            leg!("games_fight_tree", MIX, w(Profile::Fight, Some(TREE_LIGHT)), 30, 1200, 400, mk),
+            leg!("games_normal", MIX_LONGSETUP, w(Profile::Normal, None), 240, 7200, 1000, mk),
+            leg!("games_fight_tree", MIX, w(Profile::Fight, Some(TREE_LIGHT)), 90, 2700, 400, mk),
         ],
         "C11" => vec![
-            leg!("games_normal", MIX, w(Profile::Normal, None), 60, 2500, 800, mk),
-            leg!("games_fight", MIX, w(Profile::Fight, None), 60, 2500, 600, mk),
-            leg!("small_cycle", SMALL, w(Profile::Cycle, None), 60, 2500, 800, mk),
+            leg!("games_normal", MIX, w(Profile::Normal, None), 1800, 54000, 800, mk),
+            leg!("games_fight", MIX, w(Profile::Fight, None), 1800, 54000, 600, mk),
+            leg!("small_cycle", SMALL, w(Profile::Cycle, None), 1800, 54000, 800, mk),
         ],
         "C12" => vec![
-            leg!("tree_from_positions", POS_ONLY, w(Profile::Fight, Some(TREE)), 30, 1500, 60, mk),
-            leg!("games_fight", MIX, w(Profile::Fight, Some(TREE_LIGHT)), 40, 2000, 400, mk),
+            leg!("tree_from_positions", POS_ONLY, w(Profile::Fight, Some(TREE)), 300, 9000, 60, mk),
+            leg!("games_fight", MIX, w(Profile::Fight, Some(TREE_LIGHT)), 400, 12000, 400, mk),
         ],
         "C13" => vec![
-            leg!("games_fight", MIX, w(Profile::Fight, Some(TREE_LIGHT)), 40, 2000, 500, mk),
-            leg!("games_normal", MIX, w(Profile::Normal, None), 100, 4000, 1000, mk),
+            leg!("games_fight", MIX, w(Profile::Fight, Some(TREE_LIGHT)), 120, 3600, 500, mk),
+            leg!("games_normal", MIX, w(Profile::Normal, None), 300, 9000, 1000, mk),
         ],
         "C14" => vec![
-            leg!("tree_from_positions", POS_ONLY, w(Profile::Fight, Some(TREE)), 25, 1200, 60, mk),
-            leg!("games_normal", MIX, w(Profile::Normal, None), 100, 4000, 1000, mk),
+            leg!("tree_from_positions", POS_ONLY, w(Profile::Fight, Some(TREE)), 75, 2250, 60, mk),
+            leg!("games_normal", MIX, w(Profile::Normal, None), 300, 9000, 1000, mk),
         ],
         "C15" => vec![
-            leg!("games_normal", MIX_LONGSETUP, w(Profile::Normal, None), 60, 2500, 800, mk),
-            leg!("games_fight", MIX, w(Profile::Fight, None), 40, 1500, 600, mk),
+            leg!("games_normal", MIX_LONGSETUP, w(Profile::Normal, None), 360, 10800, 800, mk),
+            leg!("games_fight", MIX, w(Profile::Fight, None), 240, 7200, 600, mk),
         ],
         "C19" => vec![
-            leg!("games_normal", MIX_LONGSETUP, w(Profile::Normal, None), 80, 3000, 1500, mk),
-            leg!("games_fight_tree", MIX, w(Profile::Fight, Some(TREE_LIGHT)), 30, 1500, 500, mk),
-            leg!("small_cycle", SMALL, w(Profile::Cycle, None), 80, 3000, 1000, mk),
+            leg!("games_normal", MIX_LONGSETUP, w(Profile::Normal, None), 400, 12000, 1500, mk),
+            leg!("games_fight_tree", MIX, w(Profile::Fight, Some(TREE_LIGHT)), 150, 4500, 500, mk),
+            leg!("small_cycle", SMALL, w(Profile::Cycle, None), 400, 12000, 1000, mk),
         ],
         _ => vec![],
     }
